@@ -25,4 +25,38 @@ with open(os.path.join(lib.LEAN, "SpecVerif/TiesMpx.lean"), "w") as f:
     for n, _ in defs:
         f.write("theorem %s_tie : Generated.%s = PinnedMpx.%s := by decide\n" % (n, n, n))
     f.write("\nend SpecVerif.TiesMpx\n")
-print(len(defs), "sequences pinned")
+# lang facts
+lang = {}
+for name in ["grammarRules", "lexKeywords"]:
+    m = re.search(r"def %s : List String :=\n  (\[.*?\])\n" % name, g, flags=re.S)
+    lang[name] = ("List String", m.group(1))
+for name in ["grammarRegenerated", "grammarConflicts"]:
+    m = re.search(r"def %s : String := (\".*?\")\n" % name, g)
+    lang[name] = ("String", m.group(1))
+with open(os.path.join(lib.LEAN, "SpecVerif/PinnedLang.lean"), "w") as f:
+    f.write("/-\nPinned facts of the schema parser: the productions of grammar.y (actions removed, `!error` marks\nproductions whose action rejects the input), the keyword table, and the result of regenerating\ngrammar.go with goyacc. `TiesLang.lean` proves the facts regenerated from /repo on every run equal these.\n-/\nnamespace SpecVerif.PinnedLang\n\n")
+    for n, (t, v) in lang.items():
+        f.write("def %s : %s :=\n  %s\n" % (n, t, v))
+    f.write("\nend SpecVerif.PinnedLang\n")
+with open(os.path.join(lib.LEAN, "SpecVerif/TiesLang.lean"), "w") as f:
+    f.write("/-\nTies for the schema parser facts (see PinnedLang.lean), and their links to the Lean model.\n-/\nimport SpecVerif.PinnedLang\nimport SpecVerif.Generated.Facts\nimport SpecVerif.Lang.Syntax\nnamespace SpecVerif.TiesLang\nset_option maxRecDepth 100000\n\n")
+    for n in lang:
+        f.write("theorem %s_tie : Generated.%s = PinnedLang.%s := by decide\n" % (n, n, n))
+    f.write("""
+/-- grammar.go in the repository is what goyacc generates from grammar.y, without conflicts: the
+generated parser accepts exactly the language of the pinned productions -/
+theorem parser_tables_current : PinnedLang.grammarRegenerated = "yes" ∧
+    PinnedLang.grammarConflicts = "0 shift/reduce, 0 reduce/reduce conflicts reported" := by decide
+
+open SpecVerif.Lang in
+/-- the model's keyword table is keywords.go -/
+theorem keywords_model : (∀ s ∈ PinnedLang.lexKeywords, s ∈ Kw.all.map Kw.entry) ∧
+    PinnedLang.lexKeywords.length = Kw.all.length := by decide
+
+open SpecVerif.Lang in
+/-- the model's contextual keywords (`Kw.isName`) are the alternatives of the `keyword` nonterminal -/
+theorem name_keywords_model : ∀ k ∈ Kw.all,
+    k.isName = decide (k.nameRule ∈ PinnedLang.grammarRules) := by decide
+""")
+    f.write("\nend SpecVerif.TiesLang\n")
+print(len(defs), "sequences pinned; lang facts pinned")
